@@ -92,4 +92,21 @@ var plans = map[string]Plan{
 			"exhaustive slices are those listed in coverage.extra; larger configurations are sampled, not closed",
 		},
 	},
+	"C03": {
+		Pkg: "c03",
+		Runs: []Run{
+			{Test: "^TestProps$/^lines$", Checks: checks(8000, 250000), Shards: shards(4, 16)},
+			{Test: "^TestProps$/^rawlines$", Checks: checks(4000, 150000), Shards: shards(2, 8)},
+			{Test: "^TestProps$/^overflow$", Checks: checks(2000, 40000), Shards: shards(2, 8)},
+			{Test: "^TestProps$/^(tsp|m2rri|modelen)$", Checks: checks(400, 5000), Shards: shards(1, 4)},
+		},
+		Fuzz: []Fuzz{{Target: "FuzzAssemblerLine", Time: 2 * time.Minute}},
+		Assumptions: []string{
+			"opcode lists are name-sorted as every producer in the repository does (precondition of Decode_opcode)",
+			"operands are compared by value (registers/ports by index, immediates as integers in any base); an error return is always an acceptable outcome",
+			"lines that do not lex as a valid instruction owe only the width law; surplus operands on no-operand opcodes are labelled, not judged",
+			"r2v with a vtextmem box bound to arch.Tag is outside the domain (Tag is only set by Write_verilog)",
+			"FloPoCo instances are created with a stand-in for the absent flopoco tool (its VHDL does not affect the assembler)",
+		},
+	},
 }
